@@ -108,29 +108,29 @@ def run_transport(c):
 
 
 def transport_cases(tier, rng):
-    """DAGs on 3-4 nodes with at most one bidirected edge that touches neither an outcome nor a root (on other shapes the
-    unchanged library was reported to depend on the hash seed); one or two source domains."""
+    """ADMGs on 3-4 nodes (every DAG on 3 nodes, sampled DAGs on 4) with 0-2 bidirected edges anywhere, 1-2 treatments, one or two
+    source domains with 1-2 surrogate outcomes; 40% with user variables named X_1, bmi_score, ..."""
     import itertools as itt
     for n in (3, 4):
         vs = oracles.names(n)
         pairs = list(itt.combinations(vs, 2))
-        masks = range(1 << len(pairs)) if n == 3 or tier == "thorough" else [rng.randrange(1 << len(pairs)) for _ in range(120)]
-        for dm in masks:
+        masks = range(1 << len(pairs)) if n == 3 or tier == "thorough" else [rng.randrange(1 << len(pairs)) for _ in range(160)]
+        for dm, rep_ in itt.product(masks, range(4 if n == 3 else 3)):
             d = [p for k, p in enumerate(pairs) if dm >> k & 1]
             x, y = rng.sample(vs, 2)
-            roots = {v for v in vs if not any(b == v for _, b in d)}
-            bis = [[]] + [[p] for p in pairs if y not in p and not (set(p) & roots)]
-            u = rng.choice(bis)
+            xs = [x] if rng.random() < 0.7 else sorted({x, rng.choice([v for v in vs if v != y])})
+            u = rng.sample(pairs, rng.choice([0, 0, 1, 1, 2]))
             z1, w1 = rng.choice(vs), rng.choice(vs)
-            exps, surr = {"pi1": [z1]}, {"pi1": [w1]}
+            exps, surr = {"pi1": [z1]}, {"pi1": sorted({w1, rng.choice(vs)}) if rng.random() < 0.3 else [w1]}
             if rng.random() < 0.3:
                 exps["pi2"], surr["pi2"] = [rng.choice(vs)], [rng.choice(vs)]
-            c = {"nodes": vs, "directed": d, "undirected": u, "X": [x], "Y": [y], "experiments": exps, "surrogates": surr}
+            x = xs
+            c = {"nodes": vs, "directed": d, "undirected": u, "X": x, "Y": [y], "experiments": exps, "surrogates": surr}
             if rng.random() < 0.4:
                 # user variables whose names contain underscores and digits (selection nodes are recognised by a name prefix)
                 ren = dict(zip(vs, ["X_1", "bmi_score", "Y_2", "w_0_z"]))
                 r = lambda xs: [ren[v] for v in xs]
-                c = {"nodes": r(vs), "directed": [r(e) for e in d], "undirected": [r(e) for e in u], "X": r([x]), "Y": r([y]),
+                c = {"nodes": r(vs), "directed": [r(e) for e in d], "undirected": [r(e) for e in u], "X": r(x), "Y": r([y]),
                      "experiments": {k: r(v) for k, v in exps.items()}, "surrogates": {k: r(v) for k, v in surr.items()}}
             yield c
 
@@ -190,7 +190,7 @@ def extra(rep, repo, registry, known_open):
         rep.errors.append(f"C06 bounded part: {len(errs)} evaluation errors, e.g. {errs[0]}")
     rep.extra_parts.append({"name": "vocabulary-of-idc-and-idstar-estimands", "kind": "bounded", "decides": True, "evaluations": len(idc_cases) + len(star_cases) + len(tr_cases),
                             "scope": "IDC estimands on the C03 query set (observational vocabulary); ID* / IDC* estimands on sampled events over every ADMG with 2-3 nodes and "
-                                     "sampled 3-4 node ADMGs (single-world terms); transport estimands on DAGs with 3-4 nodes and at most one bidirected edge away from outcomes and roots, 1-2 source domains (population tags, declared experiments, no selection nodes)", "failures": len(fails), "wall_s": round(time.time() - t0, 1)})
+                                     "sampled 3-4 node ADMGs (single-world terms); transport estimands on ADMGs with 3-4 nodes and 0-2 bidirected edges, 1-2 treatments, 1-2 source domains, also with user variables named X_1 / bmi_score (population tags, declared experiments, no selection nodes)", "failures": len(fails), "wall_s": round(time.time() - t0, 1)})
     if fails:
         c, why, kind = min(fails, key=lambda f: len(json.dumps(f[0])))
         path = pipeline.write_replay("C06", "bounded.vocab", {"property": "C06", "obligation": f"vocabulary/bounded.{kind}", "case": c, "why": why, "kind": kind})
